@@ -10,6 +10,13 @@
 // Both are equal to the translated 3x3 / 4x4 determinants the code expands
 // along its z column / lifted column (derivation in NOTES.md).
 //
+// Further families (see the comments at the functions and NOTES.md): generic
+// full-mantissa near-degenerate points (Weyl sequences; generic planes, planes
+// parallel to a coordinate axis, nearly collinear triples, five nearly coplanar
+// points) and tiny coordinate grids (every 4-/5-subset of a G^3 grid with
+// different first value and step per axis; every index-degenerate subset moved
+// by single ulps and by multi-point +-1 ulp patterns).
+//
 // The real code is the header /repo/src/ExactGeometricTests.hpp, unchanged.
 #include "ExactGeometricTests.hpp"
 #include "NewVoronoiGrid.hpp"
@@ -101,6 +108,39 @@ template < typename T > struct Det< T, 3 > {
   static T eval(const T m[3][3]) { return det3(m); }
 };
 
+/// the same first-row Laplace expansion with every minor evaluated once: minor[mask] = determinant of the last
+/// popcount(mask) rows restricted to the columns in mask (N 2^(N-1) multiplications instead of ~N!). Used for the
+/// fixed-width evaluation; the unbounded-integer evaluation keeps the plain recursion above, and the two are
+/// compared with each other on every 7th alphabet multiset and on every corner-family input.
+template < typename T, int N > static T det_memo(const T m[N][N]) {
+  T minor[1 << N];
+  minor[0] = 1;
+  for (int mask = 1; mask < (1 << N); ++mask) {
+    const int row = N - __builtin_popcount(mask);
+    T r = 0;
+    int pos = 0;
+    for (int c = 0; c < N; ++c)
+      if (mask & (1 << c)) {
+        const T t = m[row][c] * minor[mask ^ (1 << c)];
+        if (pos & 1)
+          r -= t;
+        else
+          r += t;
+        ++pos;
+      }
+    minor[mask] = r;
+  }
+  return minor[(1 << N) - 1];
+}
+template < typename T, int N > struct DetChoice {
+  static T eval(const T m[N][N]) { return det_memo< T, N >(m); }
+};
+template < int N > struct DetChoice< boost::multiprecision::cpp_int, N > {
+  static boost::multiprecision::cpp_int eval(const boost::multiprecision::cpp_int m[N][N]) {
+    return Det< boost::multiprecision::cpp_int, N >::eval(m);
+  }
+};
+
 template < typename T > static inline int sgn(const T &v) { return v > 0 ? 1 : (v < 0 ? -1 : 0); }
 
 /// exact orientation determinant | a 1; b 1; c 1; d 1 |
@@ -113,7 +153,7 @@ template < typename T > static T orient_det_t(const double p[12]) {
       m[i][j] = I[3 * i + j];
     m[i][3] = 1;
   }
-  return Det< T, 4 >::eval(m);
+  return DetChoice< T, 4 >::eval(m);
 }
 
 /// exact in-sphere determinant | p |p|^2 1 | (5 rows)
@@ -130,7 +170,7 @@ template < typename T > static T insphere_det_t(const double p[15]) {
     m[i][3] = n2;
     m[i][4] = 1;
   }
-  return Det< T, 5 >::eval(m);
+  return DetChoice< T, 5 >::eval(m);
 }
 static BigInt orient_det(const double p[12]) { return orient_det_t< BigInt >(p); }
 static BigInt insphere_det(const double p[15]) { return insphere_det_t< BigInt >(p); }
@@ -540,8 +580,11 @@ struct Shape {
   std::vector< std::array< double, 3 > > v;
 };
 
+/// ladder_perm_stride: permutations called for the moves beyond the +-1..1000 ulp of the property (|k| > 1000, the
+/// ladder that crosses the filter threshold): every stride-th one (1 = all; the quick in-sphere families use 12 of
+/// the 120, indices 0,10,..,110, both parities)
 static void run_family(Result &R, Counters &total, const char *pred, int npts, const Shape &S,
-                       const std::vector< int64_t > &ks, bool &complete) {
+                       const std::vector< int64_t > &ks, bool &complete, size_t ladder_perm_stride = 1) {
   const int n = 3 * npts;
   const int nv = (int)S.v.size();
   const bool orient = (npts == 4);
@@ -619,7 +662,9 @@ static void run_family(Result &R, Counters &total, const char *pred, int npts, c
           ++C.ref_neg;
         if (orient && naive_orient(p) != ref)
           ++C.naive_wrong;
-        for (const Perm &q : perms) {
+        const size_t pstride = (k > 1000 || k < -1000) ? ladder_perm_stride : 1;
+        for (size_t iq = 0; iq < perms.size(); iq += pstride) {
+          const Perm &q = perms[iq];
           double pp[15];
           for (int i = 0; i < npts; ++i)
             for (int c = 0; c < 3; ++c)
@@ -731,6 +776,21 @@ struct GenericStats {
   }
 };
 
+/// every 16th input of the generic and grid families (per thread): the sign of the fixed-width evaluation is
+/// compared with the second (translated) formulation in unbounded integers
+static inline void oracle_spot_check(Result &R, Counters &C, const char *pred, const double *p, int npts, int ref) {
+  static thread_local unsigned counter = 0;
+  if ((++counter & 15u) != 0)
+    return;
+  ++C.oracle_cross;
+  const int ref2 = sgn(npts == 4 ? orient_det_translated(p) : insphere_det_translated(p));
+  if (ref2 != ref)
+    R.violation(fmt("C17:oracle-self-check:%s", pred),
+                fmt("the two formulations of the reference determinant differ in sign (%d vs %d) on %s", ref, ref2,
+                    pts_hex(p, 3 * npts).c_str()),
+                replay_json(pred, p, 3 * npts));
+}
+
 /// all ulp moves of one base configuration through the oracle and the real predicates
 static void generic_variants(Result &R, Counters &C, GenericStats &G, const char *pred, const char *fam,
                              const double *base, int npts, const std::vector< Perm > &perms, size_t perm_stride) {
@@ -749,6 +809,7 @@ static void generic_variants(Result &R, Counters &C, GenericStats &G, const char
         continue;
       }
       const int ref = orient ? orient_sign(p) : insphere_sign(p);
+      oracle_spot_check(R, C, pred, p, npts, ref);
       ++G.inputs;
       ++C.inputs;
       ++C.nontrivial;
@@ -779,10 +840,16 @@ static void generic_variants(Result &R, Counters &C, GenericStats &G, const char
     }
 }
 
-static void run_generic_orient(Result &R, Counters &total, GenericStats &GS, bool thorough, long seed,
+/// mode -1: generic plane; mode 0,1,2: plane parallel to the x,y,z axis but not axis aligned (c is placed so that the
+/// projections of a,b,c along that axis are collinear: every 2x2 minor of that projection cancels individually);
+/// mode 3: a,b,c nearly collinear in space (c on the line ab, rounded), d generic and NOT in any special position.
+static void run_generic_orient(Result &R, Counters &total, GenericStats &GS, int mode, int ntriples, long seed,
                                bool &complete) {
-  const int ntriples = thorough ? 1000 : 250;
-  const int npairs = thorough ? 16 : 16;
+  const int npairs = 16;
+  static const char *const famnames[5] = {"generic-near-coplanar", "generic-near-coplanar:parallel-to-x",
+                                          "generic-near-coplanar:parallel-to-y", "generic-near-coplanar:parallel-to-z",
+                                          "generic-near-collinear-triple"};
+  const std::string fam = famnames[mode + 1];
   const int nscales = 3;
   const int shifts[3] = {0, 10, 20};
   const std::vector< Perm > perms = permutations(4);
@@ -812,7 +879,14 @@ static void run_generic_orient(Result &R, Counters &total, GenericStats &GS, boo
         b[j] = a[j] + 0.5 * sc * (weyl(7 * tr + 2, (j + 1) % 4) - 0.5);
         c[j] = a[j] + 0.5 * sc * (weyl(7 * tr + 3, (j + 2) % 4) - 0.5);
       }
-      const std::string fam = "generic-near-coplanar";
+      if (mode >= 0) {
+        // c = a + lambda (b - a) in the two coordinates orthogonal to the axis (mode 0..2) / in all three (mode 3),
+        // binary128 rounded to double; the coordinate along the axis stays generic
+        const double lambda = 2. * weyl(7 * tr + 4, 1) - 0.5;
+        for (int j = 0; j < 3; ++j)
+          if (mode == 3 || j != mode)
+            c[j] = (double)((Quad)a[j] + (Quad)lambda * ((Quad)b[j] - (Quad)a[j]));
+      }
       for (int ip = 0; ip < npairs; ++ip) {
         // affine coefficients in [-0.5,1.5): inside and outside the triangle
         const double s = 2. * weyl(1000003ull * (tr + 1) + 31 * ip + 5, 3) - 0.5;
@@ -820,7 +894,9 @@ static void run_generic_orient(Result &R, Counters &total, GenericStats &GS, boo
         double base[12];
         bool ok = true;
         for (int j = 0; j < 3; ++j) {
-          const Quad dq = (Quad)a[j] + (Quad)s * ((Quad)b[j] - (Quad)a[j]) + (Quad)t * ((Quad)c[j] - (Quad)a[j]);
+          Quad dq = (Quad)a[j] + (Quad)s * ((Quad)b[j] - (Quad)a[j]) + (Quad)t * ((Quad)c[j] - (Quad)a[j]);
+          if (mode == 3) // generic fourth point: the determinant is small because a,b,c are nearly collinear
+            dq = (Quad)a[j] + (Quad)(0.5 * sc * (weyl(1000003ull * (tr + 1) + 31 * ip + 7 + j, (j + 3) % 4) - 0.5));
           base[j] = a[j];
           base[3 + j] = b[j];
           base[6 + j] = c[j];
@@ -835,9 +911,9 @@ static void run_generic_orient(Result &R, Counters &total, GenericStats &GS, boo
         ++G.bases;
         generic_variants(R, C, G, "orient3d", fam.c_str(), base, 4, perms, 1);
         if (task == ntask / 2 && ip == 0)
-          R.sample(fmt("{\"pred\": \"orient3d\", \"family\": \"generic-near-coplanar\", \"scale\": \"2^-%d\", "
+          R.sample(fmt("{\"pred\": \"orient3d\", \"family\": \"%s\", \"scale\": \"2^-%d\", "
                        "\"s\": %.17g, \"t\": %.17g, \"points\": \"%s\"}",
-                       shifts[isc], s, t, pts_hex(base, 12).c_str()));
+                       fam.c_str(), shifts[isc], s, t, pts_hex(base, 12).c_str()));
       }
     }
 #pragma omp critical
@@ -848,7 +924,91 @@ static void run_generic_orient(Result &R, Counters &total, GenericStats &GS, boo
   }
   if (stop) {
     complete = false;
-    R.hit_deadline("orient3d generic-near-coplanar family not finished");
+    R.hit_deadline("orient3d " + fam + " family not finished");
+  }
+}
+
+/// in-sphere on five full-mantissa points that are nearly coplanar: every 3x3 minor of the expansion along the
+/// lifted column cancels individually (mode -1: generic plane), and in a plane parallel to a coordinate axis
+/// (mode 0,1,2) every 2x2 minor of that projection cancels as well. The plane is spanned by a generic triple
+/// a,b,c (three scales); d and e are generic affine combinations (binary128, rounded to double).
+static void run_generic_coplanar5(Result &R, Counters &total, GenericStats &GS, int mode, int ntriples, size_t stride,
+                                  long seed, bool &complete) {
+  const int npairs = 6;
+  static const char *const famnames[4] = {"generic-five-near-coplanar", "generic-five-near-coplanar:parallel-to-x",
+                                          "generic-five-near-coplanar:parallel-to-y",
+                                          "generic-five-near-coplanar:parallel-to-z"};
+  const std::string fam = famnames[mode + 1];
+  const int nscales = 3;
+  const int shifts[3] = {0, 10, 20};
+  const std::vector< Perm > perms = permutations(5);
+  const long ntask = (long)nscales * ntriples;
+  const long rot = ntask ? (long)(((uint64_t)seed * 7919u) % (uint64_t)ntask) : 0;
+  bool stop = false;
+#pragma omp parallel
+  {
+    Counters C;
+    GenericStats G;
+#pragma omp for schedule(dynamic, 1)
+    for (long kt = 0; kt < ntask; ++kt) {
+      if (stop)
+        continue;
+      if (R.out_of_time()) {
+        stop = true;
+        continue;
+      }
+      const long task = (kt + rot) % ntask;
+      const int isc = (int)(task / ntriples);
+      const uint64_t tr = (uint64_t)(task % ntriples) + 500000u; // other members of the Weyl sequences than orientation
+      const double sc = std::ldexp(1., -shifts[isc]);
+      double a[3], b[3], c[3];
+      for (int j = 0; j < 3; ++j) {
+        a[j] = 1.25 + 0.5 * weyl(7 * tr + 1, j);
+        b[j] = a[j] + 0.5 * sc * (weyl(7 * tr + 2, (j + 1) % 4) - 0.5);
+        c[j] = a[j] + 0.5 * sc * (weyl(7 * tr + 3, (j + 2) % 4) - 0.5);
+      }
+      if (mode >= 0) {
+        const double lambda = 2. * weyl(7 * tr + 4, 1) - 0.5;
+        for (int j = 0; j < 3; ++j)
+          if (j != mode)
+            c[j] = (double)((Quad)a[j] + (Quad)lambda * ((Quad)b[j] - (Quad)a[j]));
+      }
+      for (int ip = 0; ip < npairs; ++ip) {
+        double st[4];
+        for (int k = 0; k < 4; ++k)
+          st[k] = 2. * weyl(1000003ull * (tr + 1) + 31 * ip + 5 + k, (k + 3) % 4) - 0.5;
+        double base[15];
+        bool ok = true;
+        for (int j = 0; j < 3; ++j) {
+          base[j] = a[j];
+          base[3 + j] = b[j];
+          base[6 + j] = c[j];
+          base[9 + j] = (double)((Quad)a[j] + (Quad)st[0] * ((Quad)b[j] - (Quad)a[j]) + (Quad)st[1] * ((Quad)c[j] - (Quad)a[j]));
+          base[12 + j] = (double)((Quad)a[j] + (Quad)st[2] * ((Quad)b[j] - (Quad)a[j]) + (Quad)st[3] * ((Quad)c[j] - (Quad)a[j]));
+          for (int i = 0; i < 5; ++i)
+            if (!in12(base[3 * i + j]))
+              ok = false;
+        }
+        if (!ok) {
+          ++G.bases_skipped_range;
+          continue;
+        }
+        ++G.bases;
+        generic_variants(R, C, G, "insphere", fam.c_str(), base, 5, perms, stride);
+        if (task == ntask / 2 && ip == 0)
+          R.sample(fmt("{\"pred\": \"insphere\", \"family\": \"%s\", \"scale\": \"2^-%d\", \"points\": \"%s\"}", fam.c_str(),
+                       shifts[isc], pts_hex(base, 15).c_str()));
+      }
+    }
+#pragma omp critical
+    {
+      total.add(C);
+      GS.add(G);
+    }
+  }
+  if (stop) {
+    complete = false;
+    R.hit_deadline("insphere " + fam + " family not finished");
   }
 }
 
@@ -964,6 +1124,364 @@ static void run_generic_insphere(Result &R, Counters &total, GenericStats &GS, b
   if (stop) {
     complete = false;
     R.hit_deadline("insphere generic-near-cospherical family not finished");
+  }
+}
+
+// ---------------------------------------------------------------------------
+// tiny coordinate grids: G values per axis (different first value and
+// different step on every axis), all G^3 grid points, EVERY 4-subset
+// (orientation) / 5-subset (in-sphere) of them. A coordinate value is
+// fl(x0 + (step*i)*unit): for the "rounded" members x0 and unit are not dyadic,
+// so every coordinate carries a full 52-bit mantissa and the grid is a lattice
+// only to within half an ulp; for the "dyadic" members it is an exact lattice.
+// Subsets that are degenerate in index space (integer determinant of the
+// indices step*i equal to 0: coplanar quadruples; cospherical or coplanar
+// quintuples) are the structured near-degeneracies that the generic families
+// do not contain: planes parallel to a coordinate axis but not axis aligned
+// (one coordinate projection collinear: all 2x2 minors of that projection cancel
+// individually), axis aligned planes, points sharing one or two coordinates,
+// box corners (cospherical, projections on a rectangle = cocircular), five
+// coplanar points (all 3x3 minors of the in-sphere expansion cancel).
+// Every degenerate subset is perturbed by
+//   single: every coordinate moved by every k ulp of a list (contains +-1..8),
+//   multi : every pattern "each point stays or moves by +-1 ulp along one
+//           axis" with 2 .. maxmoved moved points (7^npts patterns at most),
+// and every input is compared with the exact sign, adaptive on the listed
+// permutations, exact on two of them (one even, one odd) and wherever adaptive
+// is wrong.
+// ---------------------------------------------------------------------------
+struct Grid {
+  std::string name;
+  int G;
+  double x0[3];
+  int step[3];
+  double unit;
+  double val[3][8];
+  bool exact_lattice; // stated expectation, verified: every index-degenerate subset has determinant exactly 0
+};
+static Grid make_grid(const char *name, int G, double x, double y, double z, int sx, int sy, int sz, double unit,
+                      bool exact_lattice) {
+  Grid g;
+  g.name = name;
+  g.G = G;
+  g.x0[0] = x, g.x0[1] = y, g.x0[2] = z;
+  g.step[0] = sx, g.step[1] = sy, g.step[2] = sz;
+  g.unit = unit;
+  g.exact_lattice = exact_lattice;
+  for (int c = 0; c < 3; ++c)
+    for (int i = 0; i < G; ++i)
+      g.val[c][i] = g.x0[c] + (double)(g.step[c] * i) * unit;
+  return g;
+}
+
+struct GridPlan {
+  std::vector< int64_t > ks; // single-coordinate moves
+  int maxmoved;              // multi-point patterns with 2..maxmoved moved points (0: none), rounded grids
+  int maxmoved_exact;        // the same for the exact (dyadic) lattices: their products only round when several
+                             // coordinates are off the lattice
+  size_t perm_stride;        // permutations used: 0, stride, 2 stride, ... (unperturbed and single moves)
+  size_t multi_perm_stride;  // the same for the multi-point patterns
+  bool multi_only_structured; // multi-point patterns only on the structured degenerate subsets: orientation: plane
+                              // parallel to exactly one axis, not axis aligned; in-sphere: five points coplanar or
+                              // in a plane parallel to an axis (there the minors cancel individually)
+  bool single_only_structured; // the same restriction for the single-coordinate moves
+};
+
+struct GridStats {
+  uint64_t subsets = 0, degenerate = 0, deg_parallel_one_axis = 0, deg_axis_aligned = 0, deg_generic = 0,
+           deg_collinear = 0, deg_all_coplanar = 0;
+  uint64_t unperturbed_det_zero = 0, degenerate_det_zero = 0;
+  uint64_t inputs_unperturbed = 0, inputs_single = 0, inputs_multi = 0;
+  uint64_t det_zero = 0, naive_wrong = 0, inputs_with_wrong_result = 0, wrong_results = 0, skipped_range = 0;
+  uint64_t exact_lattice_broken = 0;
+  void add(const GridStats &o) {
+    subsets += o.subsets;
+    degenerate += o.degenerate;
+    deg_parallel_one_axis += o.deg_parallel_one_axis;
+    deg_axis_aligned += o.deg_axis_aligned;
+    deg_generic += o.deg_generic;
+    deg_collinear += o.deg_collinear;
+    deg_all_coplanar += o.deg_all_coplanar;
+    unperturbed_det_zero += o.unperturbed_det_zero;
+    degenerate_det_zero += o.degenerate_det_zero;
+    inputs_unperturbed += o.inputs_unperturbed;
+    inputs_single += o.inputs_single;
+    inputs_multi += o.inputs_multi;
+    det_zero += o.det_zero;
+    naive_wrong += o.naive_wrong;
+    inputs_with_wrong_result += o.inputs_with_wrong_result;
+    wrong_results += o.wrong_results;
+    skipped_range += o.skipped_range;
+    exact_lattice_broken += o.exact_lattice_broken;
+  }
+};
+
+/// one input: oracle once, adaptive on the strided permutations, exact on the first two of them (even, odd)
+/// and wherever adaptive is wrong. Returns the oracle sign.
+static inline int structured_input(Result &R, Counters &C, const char *pred, const char *fam, const double *p, int npts,
+                                   const std::vector< Perm > &perms, size_t stride, uint64_t &naive_wrong,
+                                   uint64_t &wrong_results, uint64_t &inputs_wrong) {
+  const bool orient = (npts == 4);
+  const int ref = orient ? orient_sign(p) : insphere_sign(p);
+  oracle_spot_check(R, C, pred, p, npts, ref);
+  ++C.inputs;
+  ++C.nontrivial;
+  if (ref == 0)
+    ++C.ref_zero_distinct;
+  if ((orient ? naive_orient(p) : naive_insphere(p)) != ref)
+    ++naive_wrong;
+  bool any = false, odd_done = false;
+  size_t used = 0;
+  for (size_t iq = 0; iq < perms.size(); iq += stride, ++used) {
+    const Perm &q = perms[iq];
+    double pp[15];
+    for (int i = 0; i < npts; ++i)
+      for (int c = 0; c < 3; ++c)
+        pp[3 * i + c] = p[3 * q.p[i] + c];
+    const int want = q.sign * ref;
+    const int ad = orient ? code_orient_adaptive(pp) : code_insphere_adaptive(pp);
+    ++C.calls;
+    ++C.perm_checks;
+    int ex = want;
+    // exact: on the identity, on the first odd permutation of the strided list and wherever adaptive is wrong
+    const bool first_odd = (q.sign < 0 && !odd_done);
+    if (used == 0 || first_odd || ad != want) {
+      ex = orient ? code_orient_exact(pp) : code_insphere_exact(pp);
+      ++C.calls;
+      if (first_odd)
+        odd_done = true;
+    }
+    if (ex != want || ad != want) {
+      any = true;
+      ++wrong_results;
+      judge(R, C, pred, fam, pp, npts, want, ex, ad);
+    }
+  }
+  if (any)
+    ++inputs_wrong;
+  return ref;
+}
+
+static long idet3(const long m[3][3]) {
+  return m[0][0] * (m[1][1] * m[2][2] - m[1][2] * m[2][1]) - m[0][1] * (m[1][0] * m[2][2] - m[1][2] * m[2][0]) +
+         m[0][2] * (m[1][0] * m[2][1] - m[1][1] * m[2][0]);
+}
+
+static void run_grid(Result &R, Counters &total, GridStats &GS, const char *pred, int npts, const Grid &g,
+                     const GridPlan &plan, bool &complete) {
+  const int n = 3 * npts;
+  const bool orient = (npts == 4);
+  const int G = g.G;
+  const int P = G * G * G;
+  // violation keys carry the short name (up to the first ':'); the definition is in the evidence (grid_members)
+  const std::string fam = fmt("grid%d:%s", G, g.name.substr(0, g.name.find(':')).c_str());
+  const std::string fam_single = fam + ":single-ulp-move";
+  const std::string fam_multi = fam + ":multi-point-move";
+  const std::vector< Perm > perms = permutations(npts);
+  const int maxmoved = g.exact_lattice ? plan.maxmoved_exact : plan.maxmoved;
+  for (size_t st : {plan.perm_stride, plan.multi_perm_stride}) {
+    bool odd = false;
+    for (size_t iq = 0; iq < perms.size(); iq += st)
+      if (perms[iq].sign < 0)
+        odd = true;
+    if (!odd)
+      R.violation("C17:harness:grid-permutation-stride", "no odd permutation in the strided list");
+  }
+  for (int c = 0; c < 3; ++c)
+    for (int i = 0; i < G; ++i)
+      if (!in12(g.val[c][i]) || (i && !(g.val[c][i] > g.val[c][i - 1])))
+        R.violation("C17:harness:grid-definition", fmt("grid %s: coordinate values not increasing inside [1,2)", g.name.c_str()));
+  // tasks: the two smallest point indices of the subset
+  std::vector< std::pair< int, int > > tasks;
+  for (int a = 0; a < P; ++a)
+    for (int b = a + 1; b < P; ++b)
+      tasks.push_back(std::make_pair(a, b));
+  int pow7 = 1;
+  for (int i = 0; i < npts; ++i)
+    pow7 *= 7;
+  bool stop = false, sampled = false;
+  const long ntask = (long)tasks.size();
+#pragma omp parallel
+  {
+    Counters C;
+    GridStats S;
+#pragma omp for schedule(dynamic, 1)
+    for (long it = 0; it < ntask; ++it) {
+      if (stop)
+        continue;
+      int s[5];
+      s[0] = tasks[it].first;
+      s[1] = tasks[it].second;
+      // remaining members in increasing order
+      for (s[2] = s[1] + 1; s[2] < P && !stop; ++s[2])
+        for (s[3] = s[2] + 1; s[3] < P && !stop; ++s[3])
+          for (s[4] = (orient ? P - 1 : s[3] + 1); s[4] < P; ++s[4]) {
+            if (R.out_of_time()) {
+              stop = true;
+              break;
+            }
+            double p[15];
+            long I[5][3];
+            for (int i = 0; i < npts; ++i) {
+              int t = s[i];
+              for (int c = 0; c < 3; ++c) {
+                const int ix = t % G;
+                t /= G;
+                p[3 * i + c] = g.val[c][ix];
+                I[i][c] = (long)g.step[c] * ix;
+              }
+            }
+            ++S.subsets;
+            ++S.inputs_unperturbed;
+            const int ref0 = structured_input(R, C, pred, fam.c_str(), p, npts, perms, plan.perm_stride, S.naive_wrong,
+                                              S.wrong_results, S.inputs_with_wrong_result);
+            if (ref0 == 0) {
+              ++S.unperturbed_det_zero;
+              ++S.det_zero;
+            }
+            // degenerate in index space?
+            long idet;
+            long m[4][3];
+            for (int i = 0; i + 1 < npts; ++i)
+              for (int c = 0; c < 3; ++c)
+                m[i][c] = I[i][c] - I[npts - 1][c];
+            if (orient) {
+              const long mm[3][3] = {{m[0][0], m[0][1], m[0][2]}, {m[1][0], m[1][1], m[1][2]}, {m[2][0], m[2][1], m[2][2]}};
+              idet = idet3(mm);
+            } else {
+              idet = 0;
+              for (int r = 0; r < 4; ++r) {
+                long mm[3][3];
+                int rr = 0;
+                for (int i = 0; i < 4; ++i) {
+                  if (i == r)
+                    continue;
+                  for (int c = 0; c < 3; ++c)
+                    mm[rr][c] = m[i][c];
+                  ++rr;
+                }
+                const long n2 = m[r][0] * m[r][0] + m[r][1] * m[r][1] + m[r][2] * m[r][2];
+                idet += ((r + 3) % 2 ? -1 : 1) * n2 * idet3(mm);
+              }
+            }
+            if (idet != 0)
+              continue;
+            ++S.degenerate;
+            if (ref0 == 0)
+              ++S.degenerate_det_zero;
+            else if (g.exact_lattice)
+              ++S.exact_lattice_broken;
+            // statistics: kind of degeneracy
+            bool structured = true;
+            {
+              int npar = 0;
+              for (int w = 0; w < 3; ++w) {
+                const int u = (w + 1) % 3, v = (w + 2) % 3;
+                bool col = true;
+                for (int i = 0; i + 1 < npts; ++i)
+                  for (int j = i + 1; j + 1 < npts; ++j)
+                    if (m[i][u] * m[j][v] - m[j][u] * m[i][v] != 0)
+                      col = false;
+                if (col)
+                  ++npar;
+              }
+              if (orient) {
+                structured = (npar == 1);
+                if (npar == 0)
+                  ++S.deg_generic;
+                else if (npar == 1)
+                  ++S.deg_parallel_one_axis;
+                else if (npar == 2)
+                  ++S.deg_axis_aligned;
+                else
+                  ++S.deg_collinear;
+              } else {
+                // all five coplanar: every 3x3 minor of the index differences vanishes
+                bool copl = true;
+                for (int r = 0; r < 4 && copl; ++r) {
+                  long mm[3][3];
+                  int rr = 0;
+                  for (int i = 0; i < 4; ++i) {
+                    if (i == r)
+                      continue;
+                    for (int c = 0; c < 3; ++c)
+                      mm[rr][c] = m[i][c];
+                    ++rr;
+                  }
+                  if (idet3(mm) != 0)
+                    copl = false;
+                }
+                if (copl)
+                  ++S.deg_all_coplanar;
+                if (npar >= 1)
+                  ++S.deg_parallel_one_axis; // all five in a plane parallel to an axis (aligned or not)
+                structured = copl || npar >= 1;
+              }
+            }
+            // single-coordinate moves
+            if (structured || !plan.single_only_structured)
+            for (int coord = 0; coord < n; ++coord)
+              for (size_t ik = 0; ik < plan.ks.size(); ++ik) {
+                double q[15];
+                for (int i = 0; i < n; ++i)
+                  q[i] = p[i];
+                q[coord] = p[coord] + (double)plan.ks[ik] * ULP;
+                if (!in12(q[coord])) {
+                  ++S.skipped_range;
+                  continue;
+                }
+                ++S.inputs_single;
+                if (structured_input(R, C, pred, fam_single.c_str(), q, npts, perms, plan.perm_stride, S.naive_wrong,
+                                     S.wrong_results, S.inputs_with_wrong_result) == 0)
+                  ++S.det_zero;
+              }
+            // multi-point moves
+            if (maxmoved >= 2 && (structured || !plan.multi_only_structured))
+              for (int pat = 0; pat < pow7; ++pat) {
+                int t = pat, moved = 0;
+                double q[15];
+                for (int i = 0; i < n; ++i)
+                  q[i] = p[i];
+                bool ok = true;
+                for (int i = 0; i < npts; ++i) {
+                  const int e = t % 7;
+                  t /= 7;
+                  if (e) {
+                    ++moved;
+                    const int c = (e - 1) >> 1;
+                    q[3 * i + c] += ((e - 1) & 1) ? -ULP : ULP;
+                    if (!in12(q[3 * i + c]))
+                      ok = false;
+                  }
+                }
+                if (moved < 2 || moved > maxmoved)
+                  continue;
+                if (!ok) {
+                  ++S.skipped_range;
+                  continue;
+                }
+                ++S.inputs_multi;
+                if (structured_input(R, C, pred, fam_multi.c_str(), q, npts, perms, plan.multi_perm_stride, S.naive_wrong,
+                                     S.wrong_results, S.inputs_with_wrong_result) == 0)
+                  ++S.det_zero;
+              }
+            if (!sampled && it == 0) {
+              sampled = true; // first degenerate subset of one fixed task (one thread: deterministic)
+              R.sample(fmt("{\"pred\": \"%s\", \"family\": \"%s\", \"degenerate_in_index_space\": true, "
+                           "\"unperturbed_points\": \"%s\", \"det_sign\": %d}",
+                           pred, fam.c_str(), pts_hex(p, n).c_str(), ref0));
+            }
+          }
+    }
+#pragma omp critical
+    {
+      total.add(C);
+      GS.add(S);
+    }
+  }
+  if (stop) {
+    complete = false;
+    R.hit_deadline(fmt("%s %s not finished", pred, fam.c_str()));
   }
 }
 
@@ -1151,6 +1669,7 @@ static int do_replay(const Args &A, Result &R) {
 int main(int argc, char **argv) {
   Args A = parse_args(argc, argv);
   Result R(A);
+  R.max_samples = 96; // the families run one after the other; the order is fixed at the end of main
   if (!A.replay.empty())
     return do_replay(A, R);
 
@@ -1260,19 +1779,258 @@ int main(int argc, char **argv) {
   t0 = R.elapsed();
   if (only.empty() || only == "families" || only == "insphere") {
     for (const Shape &S : cubes)
-      run_family(R, Cfi, "insphere", 5, S, ks, complete);
+      run_family(R, Cfi, "insphere", 5, S, ks, complete, th ? 1 : 10);
     for (const Shape &S : octas)
-      run_family(R, Cfi, "insphere", 5, S, ks, complete);
+      run_family(R, Cfi, "insphere", 5, S, ks, complete, th ? 1 : 10);
+    R.set("insphere_family_permutations_called_for_moves_beyond_1000_ulp", th ? 120 : 12);
   }
   R.set("wall_insphere_families_s", R.elapsed() - t0);
   t0 = R.elapsed();
   Counters Cgo, Cgi;
   GenericStats Ggo, Ggi;
-  if (only.empty() || only == "generic" || only == "orient")
-    run_generic_orient(R, Cgo, Ggo, th, A.seed, complete);
-  if (only.empty() || only == "generic" || only == "insphere")
+  GenericStats Ggo_par, Ggo_col, Ggi_cop, Ggi_cop_par;
+  if (only.empty() || only == "generic" || only == "orient") {
+    run_generic_orient(R, Cgo, Ggo, -1, th ? 1000 : 250, A.seed, complete);
+    // structured generic planes: parallel to each coordinate axis (not axis aligned), nearly collinear triple
+    for (int mode = 0; mode < 3; ++mode)
+      run_generic_orient(R, Cgo, Ggo_par, mode, th ? 300 : 60, A.seed, complete);
+    run_generic_orient(R, Cgo, Ggo_col, 3, th ? 300 : 60, A.seed, complete);
+  }
+  if (only.empty() || only == "generic" || only == "insphere") {
     run_generic_insphere(R, Cgi, Ggi, th, A.seed, complete);
+    // 12 (quick) / 24 (thorough) of the 120 permutations: indices 0,10,.. / 0,5,.. (both parities)
+    run_generic_coplanar5(R, Cgi, Ggi_cop, -1, th ? 200 : 40, th ? 5 : 10, A.seed, complete);
+    for (int mode = 0; mode < 3; ++mode)
+      run_generic_coplanar5(R, Cgi, Ggi_cop_par, mode, th ? 100 : 20, th ? 5 : 10, A.seed, complete);
+    R.set("generic_insphere_five_coplanar_permutations_called", th ? 24 : 12);
+  }
   R.set("wall_generic_families_s", R.elapsed() - t0);
+  t0 = R.elapsed();
+
+  // tiny coordinate grids (see run_grid). Different first value and different step on every axis.
+  struct GridJob {
+    Grid g;
+    std::string plan_name;
+  };
+  std::vector< GridJob > jobs_o, jobs_i;
+  std::map< std::string, GridPlan > plans;
+  {
+    auto klist_pm = [](std::vector< int64_t > pos) {
+      std::vector< int64_t > ks;
+      for (int64_t k : pos) {
+        ks.push_back(k);
+        ks.push_back(-k);
+      }
+      return ks;
+    };
+    std::vector< int64_t > kpos;
+    // --- orientation
+    // core plan (quick tier): +-{1..4,8,16,32,100,256,1000} and three moves of the ladder that crosses the 1e-10
+    // filter decision
+    kpos = {1, 2, 3, 4, 8, 16, 32, 100, 256, 1000, (int64_t)1 << 12, (int64_t)1 << 28, (int64_t)1 << 44};
+    GridPlan p;
+    p.ks = klist_pm(kpos);
+    p.maxmoved = 2;
+    p.maxmoved_exact = 3;
+    p.perm_stride = 2;       // 12 of the 24 permutations (indices 0,2,..,22: both parities)
+    p.multi_perm_stride = 5; // 5 of the 24 permutations (indices 0,5,..,20: both parities)
+    p.multi_only_structured = false;
+    p.single_only_structured = false;
+    plans["orient-core"] = p;
+    // full plan (thorough tier, 3x3x3 grids): +-1..32, the larger moves of the corner families, the whole ladder
+    // step 4, every one of the 7^4 multi-point patterns
+    kpos.clear();
+    for (int k = 1; k <= 32; ++k)
+      kpos.push_back(k);
+    for (int k : {64, 100, 128, 255, 256, 333, 500, 512, 999, 1000})
+      kpos.push_back(k);
+    for (int jj = 12; jj <= 44; jj += 4)
+      kpos.push_back((int64_t)1 << jj);
+    p.ks = klist_pm(kpos);
+    p.maxmoved = 4;
+    p.maxmoved_exact = 4;
+    p.perm_stride = 2;
+    p.multi_perm_stride = 4 + 1; // 5 of 24
+    plans["orient-full"] = p;
+    // every k = +-1..1000 on the planes parallel to exactly one axis of one rounded 3x3x3 grid, 3 permutations
+    // (indices 0,10,20: both parities), no multi-point patterns
+    kpos.clear();
+    for (int k = 1; k <= 1000; ++k)
+      kpos.push_back(k);
+    p.ks = klist_pm(kpos);
+    p.maxmoved = 0;
+    p.maxmoved_exact = 0;
+    p.perm_stride = 10;
+    p.multi_perm_stride = 10;
+    p.single_only_structured = true;
+    plans["orient-every-k-to-1000"] = p;
+    // 4x4x4 grid (thorough)
+    kpos = {1, 2, 1000};
+    p.ks = klist_pm(kpos);
+    p.maxmoved = 2;
+    p.maxmoved_exact = 2;
+    p.perm_stride = 5;
+    p.multi_perm_stride = 5;
+    p.single_only_structured = false;
+    plans["orient-4x4x4"] = p;
+    // --- in-sphere
+    kpos = {1, 2, 1000};
+    p.ks = klist_pm(kpos);
+    p.maxmoved = 2;
+    p.maxmoved_exact = 2;
+    p.perm_stride = 20; // 6 of the 120 permutations (indices 0,20,..,100: both parities)
+    p.multi_perm_stride = 20;
+    p.multi_only_structured = true;
+    p.single_only_structured = false;
+    plans["insphere-core"] = p;
+    kpos = {1, 2, 3, 4, 8, 32, 1000, (int64_t)1 << 28};
+    p.ks = klist_pm(kpos);
+    p.multi_only_structured = false;
+    plans["insphere-full"] = p;
+    p.multi_only_structured = true;
+    plans["insphere-full-multi-structured"] = p;
+    // 4x4x4 grid (thorough): every quintuple unperturbed, +-1 ulp of every coordinate of the structured ones,
+    // 3 permutations (indices 0,40,80: both parities)
+    kpos = {1};
+    p.ks = klist_pm(kpos);
+    p.maxmoved = 0;
+    p.maxmoved_exact = 0;
+    p.perm_stride = 40;
+    p.multi_perm_stride = 40;
+    p.single_only_structured = true;
+    plans["insphere-4x4x4"] = p;
+
+    const double third = 1. / 3.;
+    // orientation: coplanarity is affine invariant, so the steps differ per axis
+    const Grid o_rounded = make_grid("rounded:x0=(4/3,1.1,1.4),step=(2,3,1)/48", 3, 1. + third, 1.1, 1.4, 2, 3, 1, 1. / 48., false);
+    const Grid o_wide = make_grid("rounded-wide:x0=(1.0000001,1.003,1.01),step=(7,5,6)*0.047", 3, 1.0000001, 1.003, 1.01, 7, 5, 6, 0.047, false);
+    const Grid o_fine = make_grid("dyadic-fine:x0=(1,1.5,1.25),step=(1,1,1)/64", 3, 1., 1.5, 1.25, 1, 1, 1, 1. / 64., true);
+    const Grid o_dyadic = make_grid("dyadic:x0=(1.125,1.25,1.0625),step=(4,6,7)/32", 3, 1.125, 1.25, 1.0625, 4, 6, 7, 1. / 32., true);
+    const Grid o_tiny = make_grid("rounded-tiny:x0=(1.2,1.7,1.45),step=(3,1,2)*2^-30/3", 3, 1.2, 1.7, 1.45, 3, 1, 2, std::ldexp(third, -30), false);
+    const std::string oplan = th ? "orient-full" : "orient-core";
+    jobs_o.push_back({o_rounded, oplan});
+    jobs_o.push_back({o_wide, oplan});
+    jobs_o.push_back({o_fine, oplan});
+    if (th) {
+      jobs_o.push_back({o_dyadic, "orient-core"});
+      jobs_o.push_back({o_tiny, oplan});
+      jobs_o.push_back({o_rounded, "orient-every-k-to-1000"});
+      jobs_o.push_back({make_grid("rounded:x0=(4/3,1.1,1.4),step=(2,3,1)/48", 4, 1. + third, 1.1, 1.4, 2, 3, 1, 1. / 48., false), "orient-4x4x4"});
+    }
+    // in-sphere: equal steps (many cospherical subsets) and unequal steps (box corners and rectangles stay
+    // cospherical / cocircular)
+    const Grid i_equal = make_grid("rounded-equal:x0=(4/3,1.1,1.4),step=(1,1,1)/24", 3, 1. + third, 1.1, 1.4, 1, 1, 1, 1. / 24., false);
+    const std::string iplan = th ? "insphere-full" : "insphere-core";
+    jobs_i.push_back({i_equal, iplan});
+    if (th) {
+      jobs_i.push_back({o_fine, "insphere-full-multi-structured"});
+      jobs_i.push_back({o_wide, "insphere-core"});
+      jobs_i.push_back({make_grid("rounded-equal:x0=(4/3,1.1,1.4),step=(1,1,1)/24", 4, 1. + third, 1.1, 1.4, 1, 1, 1, 1. / 24., false), "insphere-4x4x4"});
+    }
+  }
+  Counters Cgro, Cgri;
+  GridStats Sgo, Sgi;
+  if (only.empty() || only == "grid" || only == "orient")
+    for (const GridJob &jb : jobs_o)
+      run_grid(R, Cgro, Sgo, "orient3d", 4, jb.g, plans[jb.plan_name], complete);
+  R.set("wall_orient_grids_s", R.elapsed() - t0);
+  t0 = R.elapsed();
+  if (only.empty() || only == "grid" || only == "insphere")
+    for (const GridJob &jb : jobs_i)
+      run_grid(R, Cgri, Sgi, "insphere", 5, jb.g, plans[jb.plan_name], complete);
+  R.set("wall_insphere_grids_s", R.elapsed() - t0);
+  if (Sgo.exact_lattice_broken + Sgi.exact_lattice_broken)
+    R.violation("C17:harness:grid-exact-lattice",
+                fmt("%" PRIu64 " index-degenerate subsets of a dyadic grid do not have determinant 0",
+                    Sgo.exact_lattice_broken + Sgi.exact_lattice_broken));
+  {
+    std::string gl = "[";
+    bool first = true;
+    std::set< std::string > used;
+    for (int w = 0; w < 2; ++w)
+      for (const GridJob &jb : (w ? jobs_i : jobs_o)) {
+        const Grid &g = jb.g;
+        used.insert(jb.plan_name);
+        gl += fmt("%s{\"pred\": \"%s\", \"G\": %d, \"name\": \"%s\", \"plan\": \"%s\", \"x\": \"", first ? "" : ", ",
+                  w ? "insphere" : "orient3d", g.G, g.name.c_str(), jb.plan_name.c_str());
+        first = false;
+        for (int c = 0; c < 3; ++c) {
+          for (int i = 0; i < g.G; ++i)
+            gl += hexd(g.val[c][i]) + (i + 1 < g.G ? " " : "");
+          gl += (c == 0 ? "\", \"y\": \"" : (c == 1 ? "\", \"z\": \"" : "\"}"));
+        }
+      }
+    gl += "]";
+    R.set_json("grid_members", gl);
+    auto klist = [](const std::vector< int64_t > &ks) {
+      std::string s;
+      int64_t run0 = 0, prev = 0;
+      for (size_t i = 0; i < ks.size(); i += 2) { // positive members (the negatives are their mirror images)
+        const int64_t k = ks[i];
+        if (run0 && k == prev + 1) {
+          prev = k;
+          continue;
+        }
+        if (run0)
+          s += (run0 == prev ? fmt("%ld,", (long)run0) : fmt("%ld..%ld,", (long)run0, (long)prev));
+        run0 = prev = k;
+      }
+      if (run0)
+        s += (run0 == prev ? fmt("%ld", (long)run0) : fmt("%ld..%ld", (long)run0, (long)prev));
+      return "+-{" + s + "}";
+    };
+    std::string pl = "{";
+    first = true;
+    for (const std::string &nm : used) {
+      const GridPlan &p = plans[nm];
+      const int nperm = nm.compare(0, 6, "orient") == 0 ? 24 : 120;
+      pl += fmt("%s\"%s\": {\"single_coordinate_moves_ulp\": \"%s\", \"multi_point_patterns_max_moved_points_rounded_grids\": %d, "
+                "\"multi_point_patterns_max_moved_points_dyadic_grids\": %d, \"permutations_called\": %d, "
+                "\"permutations_called_multi_point\": %d, \"multi_point_only_on_structured_subsets\": %s, "
+                "\"single_moves_only_on_structured_subsets\": %s}",
+                first ? "" : ", ", nm.c_str(), klist(p.ks).c_str(), p.maxmoved, p.maxmoved_exact,
+                (int)((nperm + p.perm_stride - 1) / p.perm_stride), (int)((nperm + p.multi_perm_stride - 1) / p.multi_perm_stride),
+                p.multi_only_structured ? "true" : "false", p.single_only_structured ? "true" : "false");
+      first = false;
+    }
+    pl += "}";
+    R.set_json("grid_plans", pl);
+  }
+  for (int w = 0; w < 2; ++w) {
+    const GridStats &S = w ? Sgi : Sgo;
+    const std::string pre = w ? "grid_insphere_" : "grid_orient_";
+    R.set(pre + "subsets", (double)S.subsets);
+    R.set(pre + "subsets_degenerate_in_index_space", (double)S.degenerate);
+    R.set(pre + "degenerate_subsets_with_det_exactly_zero", (double)S.degenerate_det_zero);
+    R.set(pre + "unperturbed_subsets_with_det_zero", (double)S.unperturbed_det_zero);
+    if (!w) {
+      R.set(pre + "degenerate_plane_generic", (double)S.deg_generic);
+      R.set(pre + "degenerate_plane_parallel_to_one_axis_not_aligned", (double)S.deg_parallel_one_axis);
+      R.set(pre + "degenerate_plane_axis_aligned", (double)S.deg_axis_aligned);
+      R.set(pre + "degenerate_four_collinear", (double)S.deg_collinear);
+    } else {
+      R.set(pre + "degenerate_all_five_coplanar", (double)S.deg_all_coplanar);
+      R.set(pre + "degenerate_all_five_in_a_plane_parallel_to_an_axis", (double)S.deg_parallel_one_axis);
+    }
+    R.set(pre + "inputs_unperturbed", (double)S.inputs_unperturbed);
+    R.set(pre + "inputs_single_coordinate_move", (double)S.inputs_single);
+    R.set(pre + "inputs_multi_point_move", (double)S.inputs_multi);
+    R.set(pre + "inputs_det_zero", (double)S.det_zero);
+    R.set(pre + "plain_double_sign_wrong(info)", (double)S.naive_wrong);
+    R.set(pre + "inputs_with_a_wrong_result", (double)S.inputs_with_wrong_result);
+    R.set(pre + "moves_leaving_[1,2)_skipped", (double)S.skipped_range);
+  }
+  for (int w = 0; w < 4; ++w) {
+    const GenericStats &G = w == 0 ? Ggo_par : (w == 1 ? Ggo_col : (w == 2 ? Ggi_cop : Ggi_cop_par));
+    const std::string pre = w == 0 ? "generic_orient_axis_parallel_planes_"
+                                   : (w == 1 ? "generic_orient_collinear_triple_"
+                                             : (w == 2 ? "generic_insphere_five_coplanar_" : "generic_insphere_five_coplanar_axis_parallel_"));
+    R.set(pre + "bases", (double)G.bases);
+    R.set(pre + "inputs", (double)G.inputs);
+    R.set(pre + "det_zero", (double)G.det_zero);
+    R.set(pre + "plain_double_sign_wrong(info)", (double)G.naive_wrong);
+    R.set(pre + "inputs_with_a_wrong_result", (double)G.inputs_with_wrong_result);
+  }
   R.set("generic_orient_bases", (double)Ggo.bases);
   R.set("generic_orient_bases_leaving_[1,2)_skipped", (double)Ggo.bases_skipped_range);
   R.set("generic_orient_inputs", (double)Ggo.inputs);
@@ -1293,6 +2051,9 @@ int main(int argc, char **argv) {
   T.add(Cfi);
   T.add(Cgo);
   T.add(Cgi);
+  T.add(Cgro);
+  T.add(Cgri);
+  T.skipped_range += Sgo.skipped_range + Sgi.skipped_range;
   R.evaluations = T.calls;
   R.nontrivial = T.nontrivial;
   R.set("ordered_inputs_compared_with_the_exact_sign", (double)T.inputs);
@@ -1328,11 +2089,37 @@ int main(int argc, char **argv) {
            "families: every 4/5-subset of cube corners / octahedron vertices, every coordinate moved by every k "
            "ulp, every permutation called directly; generic families: full-mantissa Weyl-sequence points, fourth / "
            "fifth point on the plane / circumsphere of the others (binary128, rounded), every coordinate moved by "
-           "-4..4 ulp, permutations called directly. Non-trivial = inputs whose points are pairwise distinct.";
+           "-4..4 ulp, permutations called directly; the same with the plane parallel to each coordinate axis (not "
+           "axis aligned), with a nearly collinear triple, and in-sphere on five nearly coplanar generic points; tiny "
+           "coordinate grids (grid_members: G values per axis, different first value and step per axis, rounded = "
+           "full-mantissa values / dyadic = exact lattice): every 4-/5-subset of the G^3 grid points unperturbed, and "
+           "every subset that is degenerate in index space (coplanar; cospherical or coplanar) with every coordinate "
+           "moved by every k of the plan and with every pattern 'each point stays or moves +-1 ulp along one axis' up "
+           "to the plan's number of moved points (grid_plans); adaptive on the plan's permutations, exact on the "
+           "identity, on one odd permutation and wherever adaptive is wrong. Non-trivial = inputs whose points are "
+           "pairwise distinct.";
   R.assumptions.push_back("coordinates in the normalised range [1,2) as the predicates require (moves of a "
                           "corner coordinate that leave the range are skipped and counted)");
   R.assumptions.push_back("the property is decided on the finite alphabets listed; nothing is claimed for "
                           "other coordinates of the continuum");
   (void)complete;
+  {
+    // the driver keeps the first few samples of a part: one of each kind of family first
+    std::vector< std::string > front, rest;
+    std::vector< bool > taken(R.samples.size(), false);
+    for (const char *tag : {"\"orient3d\", \"family\": \"grid", "\"insphere\", \"family\": \"grid", ":parallel-to-", "alphabet",
+                            "\"moved_coordinate\"", "generic-near-cospherical"})
+      for (size_t i = 0; i < R.samples.size(); ++i)
+        if (!taken[i] && R.samples[i].find(tag) != std::string::npos) {
+          taken[i] = true;
+          front.push_back(R.samples[i]);
+          break;
+        }
+    for (size_t i = 0; i < R.samples.size(); ++i)
+      if (!taken[i])
+        rest.push_back(R.samples[i]);
+    front.insert(front.end(), rest.begin(), rest.end());
+    R.samples = front;
+  }
   return R.finish(A);
 }
